@@ -1417,8 +1417,17 @@ func (d *DotGit) rewritePackedRefsWithoutRef(name plumbing.ReferenceName) (err e
 
 	s := bufio.NewScanner(pr)
 	found := false
+	dropPeeled := false
 	for s.Scan() {
 		line := s.Text()
+		if dropPeeled && strings.HasPrefix(line, "^") {
+			// the "^<peeled>" line belongs to the reference that was
+			// just removed; left behind it would be attributed to the
+			// preceding reference.
+			continue
+		}
+		dropPeeled = false
+
 		ref, err := d.processLine(line)
 		if err != nil {
 			return err
@@ -1426,6 +1435,7 @@ func (d *DotGit) rewritePackedRefsWithoutRef(name plumbing.ReferenceName) (err e
 
 		if ref != nil && ref.Name() == name {
 			found = true
+			dropPeeled = true
 			continue
 		}
 
